@@ -249,6 +249,6 @@ def main(chk):
 
 
 def replay(body):
-    r = body['replay']
-    out(body['what'])
-    return 1
+    import sys
+    import common
+    return common.replay_rerun(sys.modules[__name__], body)
